@@ -152,6 +152,12 @@ def mdp_specs(draw, flavour="discounted", min_states=1, max_states=5, max_action
         spec["explicit_actions"] = list(draw(st.permutations(list(range(m)))))
     if normalise:
         normalise_absorbing_successors(spec)
+    # how the model functions *represent* their results (all legitimate): absorbing flags as bool / int / numpy bool,
+    # action sets as fresh tuples / one shared list object / fresh lists, single-outcome distributions as
+    # DictDistribution / DeterministicDistribution, equal-weight ones as UniformDistribution
+    spec["repr"] = {"abs": draw(st.sampled_from(["bool", "bool", "int", "npbool"])),
+                    "actions": draw(st.sampled_from(["tuple", "tuple", "shared_list", "list"])),
+                    "dist": draw(st.sampled_from(["dict", "dict", "auto"]))}
     return spec
 
 
